@@ -500,6 +500,7 @@ func run(c *core.Ctx) {
 			runHooked(c, j/3)
 		case j%3 == 0:
 			runRead(c, readKinds[(j/3)%len(readKinds)])
+			runReadGens(c, j/3-j/12)
 			runHooked(c, j/3)
 		default:
 			// three of the 288 (type, operation, shape) combinations per case: the quick tier covers all of them
